@@ -12,10 +12,16 @@ def rand_ta(rng, nq=None, nrules=None, alpha=None, states=None, pfin=0.4):
     if states is None:
         states = list(range(nq))
     if alpha is None:
-        k = rng.choice([2, 3, 3, 4, 4, 5])
-        alpha = rng.sample(ALPHA_FULL, k)
-        if not any(s[1] == 0 for s in alpha):
-            alpha[0] = ["a", 0]
+        if rng.random() < 0.15:
+            # shared symbol NAMES: one name used with several ranks is several ranked symbols
+            alpha = rng.sample([["a", 0], ["a", 1], ["a", 2], ["b", 0], ["b", 2], ["g", 1]], rng.choice([3, 4, 5]))
+            if not any(s[1] == 0 for s in alpha):
+                alpha[0] = ["a", 0]
+        else:
+            k = rng.choice([2, 3, 3, 4, 4, 5])
+            alpha = rng.sample(ALPHA_FULL, k)
+            if not any(s[1] == 0 for s in alpha):
+                alpha[0] = ["a", 0]
     if nrules is None:
         nrules = rng.choice([0, 1, 2, 3, 4, 5, 6, 7, 7])
     rules = []
